@@ -118,6 +118,16 @@ pub fn run() -> i32 {
             }
         }
         run_box(&mut r, "Q: c=1, context-only and exception-only, W(I4,4)", rules, &w44);
+        // two items per side, for two IN/OUT pairs, on W(I3,4): every window of the c=2 shapes
+        let w34 = word_space(&inventory(3), 4);
+        let e2 = envs(2);
+        let ins = seg_items(); let outs = out_items();
+        let mut q2 = vec![];
+        for (i, o) in [(ins[2].clone(), outs[1].clone()), (ins[5].clone(), outs[2].clone())] { for e in &e2 {
+            q2.push(BasicRule { input: i.clone(), output: o.clone(), context: vec![e.clone()], except: vec![] });
+            q2.push(BasicRule { input: i.clone(), output: o.clone(), context: vec![], except: vec![e.clone()] });
+        } }
+        run_box(&mut r, "Q2: c=2, context-only and exception-only, `a > i` and `C > [+voice]`, W(I3,4)", q2, &w34);
     } else {
         let w35 = word_space(&inventory(3), 5);
         let e1 = envs(1);
